@@ -10,10 +10,10 @@ cargo nextest run --workspace --no-fail-fast --test-threads 8 --offline $FEAT -E
 echo "== demo with the change (must fail)"
 timeout 600 cargo nextest run --offline $FEAT --test $bin --no-fail-fast 2>&1 | tail -1 | tee /tmp/wt/$NAME.demo_with.txt
 git diff -- src > mutant.diff
-git stash push -q -- src
+git apply -R mutant.diff   # (no git stash: the stash is shared between worktrees)
 echo "== demo without the change (must pass)"
 timeout 600 cargo nextest run --offline $FEAT --test $bin --no-fail-fast 2>&1 | tail -1 | tee /tmp/wt/$NAME.demo_without.txt
-git stash pop -q
+git apply mutant.diff
 mkdir -p /verif/seeded/$NAME
 cp mutant.diff /verif/seeded/$NAME/patch.diff
 cp "$demo" /verif/seeded/$NAME/
